@@ -14,8 +14,8 @@ import (
 
 	"verif/lib/ev"
 	"verif/lib/mc"
-	"verif/lib/retain"
 	"verif/lib/refgeom"
+	"verif/lib/retain"
 )
 
 const big = 1<<28 - 1
@@ -348,6 +348,11 @@ var geoms = []orb.Geometry{
 	orb.MultiPolygon{{sq}},
 	orb.MultiPolygon{{sq, sqHole}, {tri}},
 	orb.MultiPolygon{{tri, triHole}, {sq, sqHole}, {lshape}},
+	// self-crossing rings: the winding that decides the regrouping is the sign of the shoelace sum, whatever the ring
+	// looks like at any one vertex (a bow-tie whose larger lobe winds one way and whose top-right lobe the other way)
+	orb.MultiPolygon{{sq}, {{{20, 0}, {30, 0}, {23, 12}, {27, 12}, {20, 0}}}},                                     // second outer ring: shoelace +, clockwise at its top-right vertex
+	orb.Polygon{sq, {{2, 2}, {4, 8}, {3, 8}, {6, 2}, {2, 2}}},                                                     // hole: shoelace -, counter-clockwise at its top vertex
+	orb.MultiPolygon{{{{0, 0}, {4, 0}, {0, 4}, {4, 4}, {0, 0}}}, {{{10, 0}, {12, 6}, {11, 6}, {14, 0}, {10, 0}}}}, // a symmetric bow-tie (shoelace 0) and a clockwise-sum bow-tie after it
 	nil,
 	orb.Collection{orb.Point{7, 7}},
 	orb.Collection{orb.Point{7, 7}, orb.LineString{{0, 0}, {1, 1}}},
